@@ -269,11 +269,17 @@ def shrink(exe, mmodel, script_text, workdir, pid, kind, budget=160):
     counts only if it still shows a disagreement of the same kind"""
     lines = script_text.splitlines()
     runs = [0]
+    started = time.time()
+    # a changed library may hang: shrinking is bounded in time as well as in runs
+    budget_s = 90
 
     def fails(ls):
         runs[0] += 1
+        if time.time() - started > budget_s:
+            runs[0] = budget
+            return False
         txt = "\n".join(ls) + "\n"
-        ri, rm = run_one(exe, mmodel, txt, workdir, 9999)
+        ri, rm = run_one(exe, mmodel, txt, workdir, 9999, timeout=20)
         ds = compare(txt, ri, rm, pid)
         return any(d.get("kind") == kind for d in ds)
 
